@@ -12,8 +12,32 @@ thread_local! {
     pub static LAST_PANIC: RefCell<Option<String>> = const { RefCell::new(None) };
 }
 
-/// Install a quiet panic hook that records "file:line: message" in a thread-local.
+/// A logger that formats every record (so that the arguments of the library's log macros are
+/// evaluated, as they are in an application that has logging switched on) and drops the text.
+struct FormatAndDrop;
+impl log::Log for FormatAndDrop {
+    fn enabled(&self, _: &log::Metadata) -> bool {
+        true
+    }
+    fn log(&self, r: &log::Record) {
+        use std::fmt::Write;
+        struct Sink;
+        impl Write for Sink {
+            fn write_str(&mut self, _: &str) -> std::fmt::Result {
+                Ok(())
+            }
+        }
+        let _ = write!(Sink, "{} {}", r.target(), r.args());
+    }
+    fn flush(&self) {}
+}
+static LOGGER: FormatAndDrop = FormatAndDrop;
+
+/// Install a quiet panic hook that records "file:line: message" in a thread-local, and switch the
+/// process-wide log level to Trace with a logger that formats and discards.
 pub fn install_panic_hook() {
+    let _ = log::set_logger(&LOGGER);
+    log::set_max_level(log::LevelFilter::Trace);
     std::panic::set_hook(Box::new(|info| {
         let loc = info.location().map(|l| format!("{}:{}", l.file().rsplit('/').next().unwrap_or(""), l.line())).unwrap_or_default();
         let msg = if let Some(s) = info.payload().downcast_ref::<&str>() {
@@ -146,6 +170,38 @@ pub fn observe(file: &AsepriteFile, want: &Want) -> Obs {
     if let Some(v) = guarded(&mut panics, || "layers()".into(), || file.layers().map(|l| l.id()).collect::<Vec<_>>()) {
         o.layers_iter = v;
     }
+    // the other ways to consume the same iterator must agree with collecting it
+    if let Some(Some(msg)) = guarded(&mut panics, || "layers() iterator adaptors".into(), || {
+        let n = o.layers_iter.len();
+        let (lo, hi) = file.layers().size_hint();
+        if lo > n || hi.map_or(false, |h| h < n) {
+            return Some(format!("size_hint ({}, {:?}) excludes the {} items it yields", lo, hi, n));
+        }
+        if file.layers().count() != n {
+            return Some(format!("count() = {}, collected {}", file.layers().count(), n));
+        }
+        if file.layers().last().map(|l| l.id()) != o.layers_iter.last().copied() {
+            return Some("last() disagrees with the collected sequence".into());
+        }
+        for k in [0usize, 1, 2, n.saturating_sub(1), n, n + 1] {
+            if file.layers().nth(k).map(|l| l.id()) != o.layers_iter.get(k).copied() {
+                return Some(format!("nth({}) disagrees with the collected sequence", k));
+            }
+        }
+        // a partly consumed iterator continues where it stopped
+        let mut it = file.layers();
+        let head: Vec<u32> = it.by_ref().take(2).map(|l| l.id()).collect();
+        let tail: Vec<u32> = it.map(|l| l.id()).collect();
+        if head.iter().chain(tail.iter()).copied().collect::<Vec<_>>() != o.layers_iter {
+            return Some("take(2) followed by the rest disagrees with the collected sequence".into());
+        }
+        if n <= 4096 && file.layers().skip(1).step_by(2).map(|l| l.id()).collect::<Vec<_>>() != o.layers_iter.iter().skip(1).step_by(2).copied().collect::<Vec<_>>() {
+            return Some("skip(1).step_by(2) disagrees with the collected sequence".into());
+        }
+        None
+    }) {
+        panics.push(("layers() iterator".into(), msg));
+    }
 
     for f in 0..nf {
         let fo = guarded(&mut panics, || format!("frame({}).image", f), || {
@@ -251,6 +307,9 @@ pub fn observe(file: &AsepriteFile, want: &Want) -> Obs {
             o.tilesets.push(t);
         }
     }
+    if ts.iter().count() != ts.len() as usize || (ts.len() == 0) != ts.is_empty() {
+        panics.push(("tilesets()".into(), format!("len() = {}, iter().count() = {}, is_empty() = {}", ts.len(), ts.iter().count(), ts.is_empty())));
+    }
     o.tileset_get = want.id_probes.iter().map(|i| (*i, ts.get(*i).map(|t| t.id() == *i).unwrap_or(false))).collect();
 
     let mut ef: Vec<(u32, String)> = file.external_files().map().iter().map(|(k, v)| (k.value(), format!("{}\u{1}{}", v.id().value(), v.name()))).collect();
@@ -299,6 +358,12 @@ pub fn observe(file: &AsepriteFile, want: &Want) -> Obs {
         if let Some(t) = r {
             o.tags.push(t);
         }
+        // Clone of the public value types keeps every field
+        let _ = guarded(&mut panics, || format!("tag({}).clone()", i), || {
+            let t = file.tag(i);
+            let c = t.clone();
+            assert!(format!("{:?}", c) == format!("{:?}", t) && c.user_data() == t.user_data(), "clone of tag {} differs from the tag", i);
+        });
     }
     o.get_tag = want.id_probes.iter().map(|i| (*i, file.get_tag(*i).map(|t| t.name().to_string()))).collect();
     o.tag_by_name = want
@@ -322,6 +387,24 @@ pub fn observe(file: &AsepriteFile, want: &Want) -> Obs {
             ud: ud(s.user_data.as_ref()),
         });
     }
+    let _ = guarded(&mut panics, || "slice / user data clone".into(), || {
+        for s in file.slices() {
+            let c = s.clone();
+            assert!(format!("{:?}", c) == format!("{:?}", s), "clone of slice {:?} differs from the slice", s.name);
+            for k in &s.keys {
+                assert!(format!("{:?}", k.clone()) == format!("{:?}", k), "clone of a slice key differs");
+            }
+        }
+        if let Some(u) = file.sprite_user_data() {
+            assert!(u.clone() == *u && !(u.clone() != *u), "UserData clone / PartialEq disagree");
+        }
+        for l in 0..file.num_layers().min(64) {
+            let layer = file.layer(l);
+            if let Some(u) = layer.user_data() {
+                assert!(u.clone() == *u && !(u.clone() != *u), "UserData clone / PartialEq disagree");
+            }
+        }
+    });
     o.sprite_ud = ud(file.sprite_user_data());
     if want.debug_fmt {
         let _ = guarded(&mut panics, || "Debug".into(), || {
